@@ -26,8 +26,9 @@ class C12(Prop):
                   'unconditionally (same panics in the same order); the answer depends only on the function a lookup form induces, and the '
                   'map / closure / pair forms induce the stated functions. DebVersion.v: the dpkg ordering is proved a total preorder and '
                   "the transcription of debversion's Ord is proved equal to it whenever no digit run exceeds i32::MAX (beyond that the crate "
-                  'panics: recorded finding). Ordering of the real crate: modelled external, validated by the vercmp stream.')
-    level_note = ('Model: Entry/Relations::satisfied_by, Relation::name/version/new, From<Vec<..>> in debian-control/src/lossless/relations.rs; '
+                  'panics: recorded finding). Relation::set_version (with the proposed fix) writes a constraint that version() reads back. '
+                  'Ordering of the real crate: modelled external, validated by the vercmp stream.')
+    level_note = ('Model: Entry/Relations::satisfied_by, Relation::name/version/new/set_version(Some), From<Vec<..>> in debian-control/src/lossless/relations.rs; '
                   'Relation/Relations::satisfied_by in lossy/relations.rs; VersionLookup impls in lib.rs; VersionConstraint in relations.rs; '
                   'debversion 0.4.4 FromStr/Ord (external crate, transcribed). Architecture restrictions and build profiles are ignored by both '
                   'evaluators and by the statement. The lossless reader rejects epochs in version text (C10, DESIGN §5 row 11): epoch cases '
